@@ -64,6 +64,11 @@ func (p *pg) genCrash(profile string) (Config, Plan) {
 	if profile == "C02" && p.r.Intn(3) == 0 {
 		return c, p.tornCycles(&c)
 	}
+	if profile != "C02" && profile != "C09" && p.r.Intn(25) == 0 {
+		// the real metadb.BoltMetaDB + bbolt (on tmpfs) behind the seam wrapper:
+		// every MetaStore call is still a yield / crash point
+		c.Meta = "bolt"
+	}
 	mix := p.swarmMix(kinds, "append")
 	n := 6 + p.r.Intn(30)
 	var plan Plan
